@@ -232,6 +232,91 @@ Definition scen_verdict (kf kfl : name -> bool) (s : scen) : bool :=
   verdict (scen_cfg kf kfl s) (run (scen_cfg kf kfl s) (scen_ops s)) (scen_err s).
 
 (* ====================================================================== *)
+(* Peer feedback of the in-process reference server (client mode):         *)
+(*   referenceserver/server.go run():  errPrinter := NewPrinter(errWriter), *)
+(*     handed to createServer -> referenceServerChecks (feedbackPrinter);   *)
+(*   connectconformance.go run(): runInProcess(reference-server, ...) with  *)
+(*     the three pipes of process.go;                                       *)
+(*   server_runner.go: the stderr reader installed `if isReferenceServer`.  *)
+(* ====================================================================== *)
+(* internal.Printer.PrefixPrintf(name, msg) prints "<name>: <msg>" *)
+Definition fb_line (n : name) (msg : bytes) : bytes := n ++ 58%N :: 32%N :: msg.
+
+Fixpoint has_sep (s : bytes) : bool :=
+  match s with
+  | a :: t => match t with
+              | b :: _ => ((a =? 58)%N && (b =? 32)%N) || has_sep t
+              | [] => false
+              end
+  | [] => false
+  end.
+
+(* strings.SplitN(line, ": ", 2)[0] when there are two parts: the text before the first ": " *)
+Fixpoint before_sep (s : bytes) : option bytes :=
+  match s with
+  | a :: t => match t with
+              | b :: _ => if ((a =? 58)%N && (b =? 32)%N) then Some []
+                          else option_map (cons a) (before_sep t)
+              | [] => None
+              end
+  | [] => None
+  end.
+
+(* the stderr reader: a line is feedback exactly when the text before its first ": " names
+   a case of this batch (testCaseNameSet); anything else is passed on to the user *)
+Definition read_line (batch_names : list name) (line : bytes) : option name :=
+  match before_sep line with
+  | Some p => if mem_bytes p batch_names then Some p else None
+  | None => None
+  end.
+
+(* the writers an in-process peer is started with, and the runner's own stderr *)
+Inductive writer := WOut | WErr | WOwnStderr.
+Definition writer_eqb (a b : writer) : bool :=
+  match a, b with WOut, WOut | WErr, WErr | WOwnStderr, WOwnStderr => true | _, _ => false end.
+(* the reference server builds its feedback printer on the errWriter it was handed *)
+Definition server_feedback_writer : writer := WErr.
+(* the runner reads the other end of that writer, for a reference server only *)
+Definition runner_feedback_source (is_reference : bool) : option writer :=
+  if is_reference then Some WErr else None.
+
+(* a case of a client-mode run: what the client under test reports, and what the server
+   had to say about the request it saw (nothing: the request was as the case demands) *)
+Record pcase := mkPC { pc_rc : rcase; pc_msgs : list bytes }.
+Record pbatch := mkPB { pb_reference : bool; pb_cases : list pcase }.
+Definition pc_name (c : pcase) : name := c.(pc_rc).(rc_name).
+
+Definition batch_lines (b : pbatch) : list bytes :=
+  flat_map (fun c => map (fb_line (pc_name c)) c.(pc_msgs)) b.(pb_cases).
+
+Definition heard (b : pbatch) : list name :=
+  match runner_feedback_source b.(pb_reference) with
+  | Some src =>
+    if writer_eqb src server_feedback_writer
+    then flat_map (fun l => match read_line (map pc_name b.(pb_cases)) l with
+                            | Some n => [n] | None => [] end) (batch_lines b)
+    else []
+  | None => []
+  end.
+
+Definition peer_feedback (ps : list pbatch) : list name := flat_map heard ps.
+
+(* the client under test is an OS process that answers every request and ends at end of
+   input; the in-process reference servers start *)
+Definition strip (ps : list pbatch) (exit_err : bool) : scen :=
+  mkSc (map (fun b => mkB true (map pc_rc b.(pb_cases))) ps) None exit_err.
+
+(* feedback is recorded while the batch runs; report() merges it at the end, so where the
+   recordSideband calls stand among the other operations does not matter (outcome_on_record) *)
+Definition peer_ops (ps : list pbatch) (exit_err : bool) : list op :=
+  scen_ops (strip ps exit_err) ++ map OSideband (peer_feedback ps).
+
+Definition peer_cfg (kf kfl : name -> bool) (ps : list pbatch) : cfg :=
+  scen_cfg kf kfl (strip ps false).
+Definition peer_verdict (kf kfl : name -> bool) (ps : list pbatch) (exit_err : bool) : bool :=
+  verdict (peer_cfg kf kfl ps) (run (peer_cfg kf kfl ps) (peer_ops ps exit_err)) exit_err.
+
+(* ====================================================================== *)
 (* case decoding / result encoding (extracted glue)                        *)
 (* ====================================================================== *)
 Definition un_kind (s : sx) : option errkind :=
@@ -304,6 +389,32 @@ Definition run_c04_flow (args : list sx) : sx :=
     ret (L [sx_bool v; sx_nat (exit_status v); sx_rep (report c (run c (scen_ops s)))])
   | _ => None end).
 
+(* (known-failing) (known-flaky) (batches: (is-reference ((name reply defect) ...))) exit_err
+     -> (verdict exit-status report), through the real Run() in client mode *)
+Definition un_pcase (s : sx) : option pcase :=
+  match s with
+  | L [B n; r; I d] => do r <- un_reply r;
+      ret (mkPC (mkRC n r) (if (d =? 0)%Z then [] else [bs "m"]))
+  | _ => None
+  end.
+Definition un_pbatch (s : sx) : option pbatch :=
+  match s with
+  | L [I rf; cs] => do cs <- un_listof un_pcase cs; ret (mkPB (negb (Z.eqb rf 0)) cs)
+  | _ => None
+  end.
+Definition run_c04_peer (args : list sx) : sx :=
+  or_bad (match args with
+  | [kf; kfl; bs; I ee] =>
+    do kf <- un_listof un_B kf; do kfl <- un_listof un_B kfl; do bs <- un_listof un_pbatch bs;
+    let e := negb (Z.eqb ee 0) in
+    let c := peer_cfg (marks kf) (marks kfl) bs in
+    let v := peer_verdict (marks kf) (marks kfl) bs e in
+    match sx_rep (report c (run c (peer_ops bs e))) with
+    | L (_ :: rep) => ret (L [sx_bool v; sx_nat (exit_status v); L (sx_bool v :: rep)])
+    | x => ret x
+    end
+  | _ => None end).
+
 (* the same through the real Run(), which does not expose report()'s own return value:
    the first field of the report part carries the verdict *)
 Definition run_c04_run (args : list sx) : sx :=
@@ -315,4 +426,5 @@ Definition run_c04_run (args : list sx) : sx :=
 Definition c04_table : list (bytes * (list sx -> sx)) :=
   [ (bs "c04.results", run_c04_results);
     (bs "c04.flow", run_c04_flow);
-    (bs "c04.run", run_c04_run) ].
+    (bs "c04.run", run_c04_run);
+    (bs "c04.peer", run_c04_peer) ].
